@@ -32,7 +32,8 @@ CONSTANTS ChecksAddr,   \* chunk_get compares the address of the chunk it receiv
 \*   authentic     key A, chunk X              wrongcontent  key A, a valid chunk of other bytes Y
 \*   wrongkey      key hash(Y), chunk Y        wrongkind     key A, a register-kind record
 \*   padkind       key A, a scratchpad record  paidkind      key A, chunk X under the with-payment kind
-ChunkKinds == {"authentic", "wrongcontent", "wrongkey", "wrongkind", "padkind", "paidkind"}
+\*   paidsubst     key A, a with-payment record: (proof of payment without quotes, chunk of the OTHER bytes Y)
+ChunkKinds == {"authentic", "wrongcontent", "wrongkey", "wrongkind", "padkind", "paidkind", "paidsubst"}
 \* address of the bytes a chunk reply carries: 1 = requested, 2 = other, 0 = not a chunk record
 ChunkAddrOf(k) == CASE k = "authentic" -> 1 [] k \in {"wrongcontent", "wrongkey"} -> 2 [] OTHER -> 0
 IsChunkRecord(k) == k \in {"authentic", "wrongcontent", "wrongkey"}
@@ -117,7 +118,7 @@ VaultGet(o) == UNION {VaultClient(d) : d \in NetLayer(o)}
 \* authentic; result x = 1 the data committed to by A, 2 the other data, 0 anything else
 DataGet(pos, kind) ==
     IF kind = "authentic" THEN {ResOk(1)}
-    ELSE IF kind \in {"wrongkind", "missing"} THEN {ResErr}
+    ELSE IF kind \in {"wrongkind", "missing", "paidsubst"} THEN {ResErr}
     ELSE IF ChecksAddr THEN {ResErr}
     ELSE IF pos = "root" THEN {ResOk(2)}            \* the other data map is followed to the end
     ELSE {ResErr, ResOk(0)}                          \* a foreign chunk among the others: decryption fails or garbles
